@@ -6,7 +6,7 @@ for d in "${@:-seeded/*}"; do
   [ -f "$d/patch.diff" ] || continue
   id=$(basename "$d" | cut -d- -f1)
   git -C /repo apply "$(pwd)/$d/patch.diff" || { echo "$d: patch does not apply"; continue; }
-  out=$(./check "$id" quick 2>&1)
+  out=$(ARKVC_EVIDENCE_DIR=/var/tmp/seed_evidence ./check "$id" quick 2>&1)
   rc=$?
   git -C /repo checkout -- .
   n=$(echo "$out" | grep -c "^VIOLATION")
